@@ -269,6 +269,10 @@ MUTANTS += [
          old="        t1_dot = (v_dot - t1 * (t1 @ v_dot)) / norm(cross3(t2_ref, n))", new="        t1_dot = v_dot - t1 * (t1 @ v_dot)", expect="C06.R12"),
 ]
 NEUTRAL = [
+    dict(id="c06-n-r12", what="t1t2_dot with the normalisation lengths hoisted into locals", file=S2S,
+         old="        t1_dot = (v_dot - t1 * (t1 @ v_dot)) / norm(cross3(t2_ref, n))", new="        l1 = norm(cross3(t2_ref, n))\n        t1_dot = (v_dot - t1 * (t1 @ v_dot)) / l1"),
+    dict(id="c06-n-r10", what="t1t2_q1_q2 reads the reference basis column through a slice of the whole basis", file=S2S,
+         old="        t2_ref = self.reference_contact_basis[:, 1]\n        t2_ref_tilde = ax2skew(t2_ref)", new="        basis = self.reference_contact_basis\n        t2_ref = basis[:, 1]\n        t2_ref_tilde = ax2skew(t2_ref)"),
     dict(id="c06-n2", canary=True, what="lever arms hoisted into locals (the seeded fault's neutral twin)", file=S2S,
          old="        J_P1 = self.J_C1(t, q) - ax2skew(self.radius1 * n) @ self.J1_R(t, q)\n        J_P2 = self.J_C2(t, q) - ax2skew(-self.radius2 * n) @ self.J2_R(t, q)\n\n        gamma_F_u = np.zeros(",
          new="        r_C1P1_tilde = ax2skew(self.radius1 * n)\n        r_C2P2_tilde = ax2skew(-self.radius2 * n)\n        J_P1 = self.J_C1(t, q) - r_C1P1_tilde @ self.J1_R(t, q)\n        J_P2 = self.J_C2(t, q) - r_C2P2_tilde @ self.J2_R(t, q)\n\n        gamma_F_u = np.zeros("),
